@@ -31,8 +31,7 @@ class _OsProxy:
         self._fs.op("rename", b)
         if self._fs.frozen:
             return
-        _os.rename(a, b)
-        self._fs.touch(b)
+        _os.rename(a, b)  # (a rename keeps the modification time of the file: the virtual one of its last write, or what was set since)
 
     def replace(self, a, b):
         self.rename(a, b)
